@@ -24,7 +24,7 @@ for d in sys.argv[1:]:
     EXTRA.clear()
     if "searchlite_verif" in run:
         EXTRA["RUSTFLAGS"] = "--cfg searchlite_verif"
-    m = re.search(r"(?:<worktree>|/tmp/seed/c\d+\w*)/(searchlite-\S+\.rs)", run)
+    m = re.search(r"(?:<worktree>|/tmp/seed/c\d+\w*)/(searchlite-\S+\.rs)", run) or re.search(r"(searchlite-[a-z]+/tests/\S+\.rs)", run)
     dest = m.group(1)
     feats = "--features vectors" if "--features vectors" in run else ""
     crate = dest.split("/")[0]
